@@ -162,7 +162,7 @@ def run(ctx):
         else:
             viol(report, "C06-R5", b, o.kind, "%s at `%s` is not discharged: %s" % (o.kind, o.snippet, o.detail), o.snippet)
     # ---- R1 label length at every push
-    pushes = [e for e in an.events if e.get("callee") and e["callee"]["def"] == "std::vec::Vec::<T, A>::push"]
+    pushes = [e for e in an.events_all if e.get("callee") and e["callee"]["def"] == "std::vec::Vec::<T, A>::push"]
     slices = [s for s in an.slices if s["kind"] == "range"]
     report.floor("labels.push sites", len(pushes), 1)
     label_slices = []
